@@ -404,8 +404,8 @@ func main() {
 			defer b.cancel()
 			ex := explore.New(bounds(tier, sc))
 			ex.Stop = rep.Expired
-			ex.Explore(func(x *explore.Exec) { execute(x, sc, b) })
-			rep.AddStats(sc, &ex.Stats)
+			var seq runner.Seq // the executions share the provisioned routes: history-aware replay
+			seq.Explore(ex, sc, rep, func(x *explore.Exec) { execute(x, sc, b) })
 			rep.States += ex.Stats.Executions
 			if sc.H.Declares() {
 				rep.Nontrivial += ex.Stats.Executions
@@ -420,6 +420,16 @@ func main() {
 			b := build(sc)
 			defer b.cancel()
 			ex := explore.New(bounds("thorough", sc))
+			return ex.RunOnce(choices, func(x *explore.Exec) { execute(x, sc, b) }).Failures
+		},
+		ReplayH: func(hist []runner.HistItem, scAny any, choices []int) []explore.Failure {
+			sc := scAny.(*Scn)
+			b := build(sc)
+			defer b.cancel()
+			ex := explore.New(bounds("thorough", sc))
+			for _, it := range hist {
+				ex.RunOnce(it.Choices, func(x *explore.Exec) { execute(x, sc, b) })
+			}
 			return ex.RunOnce(choices, func(x *explore.Exec) { execute(x, sc, b) }).Failures
 		},
 		Budget: func(tier string) time.Duration {
